@@ -427,7 +427,7 @@ func (self Engine) modelDay(currentDay flap.EpochTime,cars *CountriesAirportsRou
 		// Add new travellers if configured to do so
 		if self.ModelParams.TravellersDailyIncrease != 0 {
 			err := self.adjustDailyTotal(self.ModelParams.TravellersDailyIncrease,ms.totalTravellersCurrent,currentDay,&flapParams)
-			if err != nil {
+			if err != nil && err != ESSNODATA {
 				return flap.UpdateBackfillStats{},0,logError(err)
 			}
 			ms.totalTravellersCurrent += self.ModelParams.TravellersDailyIncrease
